@@ -9,7 +9,9 @@
      outputs    number of distinct byte strings the capacity sequences produced (must be one)
      decodable  the reference decoder (itself checked against Codec.tla's bytes) accepts the bytes
      matched    ... and recovers exactly the abstract content of the case
-     error / panics   the encoder refused the packet / panicked *)
+     error / panics   the encoder refused the packet / panicked
+     class      "legal", or the rule of the specification the case breaks although the public API can express it
+     validated  the validation run by the public submit / stop entry points accepted the packet *)
 EXTENDS MonBase
 
 Init0 == [run |-> 0, skip |-> FALSE, errs |-> <<>>,
@@ -28,6 +30,12 @@ Apply(m, e) ==
                      ELSE IF e.type # "PUBLISH" /\ e.n # o.entries THEN Breach(m, e, "content-mismatch")
                      ELSE IF o.hash # 0 /\ e.hash # o.hash THEN Breach(m, e, "content-mismatch")
                      ELSE m
+           [] e.ev = "Enc" /\ e.class # "legal" ->
+                  \* a packet the specification forbids (class from Codec.tla) that the public API can express: if submission-time
+                  \* validation lets it through and the encoder produces it, the client emits a malformed packet
+                  IF e.panics > 0 THEN [Breach(m, e, "panic") EXCEPT !.skip = FALSE]
+                  ELSE IF e.validated = 1 /\ e.outputs >= 1 THEN [Breach(m, e, "malformed-emitted") EXCEPT !.skip = FALSE]
+                  ELSE m
            [] e.ev = "Enc" ->
                   IF e.panics > 0 THEN [Breach(m, e, "panic") EXCEPT !.skip = FALSE]
                   ELSE IF e.outputs = 0 THEN [Breach(m, e, "not-encodable") EXCEPT !.skip = FALSE]
